@@ -80,7 +80,7 @@ class ExactLoss:
         ps = [abs(float(p)) for p in pred.values()] or [0.0]
         c = [abs(x) for x in self.inner.spec.get('c', [0, 1, 1, 1])] + [1]
         m = max(ps) + abs(float(y)) + 1.0
-        self.scale = max(self.scale, len(ps) * max(c) * m * m * 4)
+        self.scale = max(self.scale, len(ps) * max(c) * m * m * 4, 4.0 * abs(self.inner.spec.get('offset') or 0))
         return v
 
 
@@ -91,7 +91,7 @@ class SageRef:
         self.names = list(cfg['names'])
         self.d = len(self.names)
         dyn, alpha = cfg['dynamic'], Q(cfg['alpha'])
-        self.model = Model(cfg['model'], self.names, 'exact', record=False)
+        self.model = Model(cfg['model'], list(cfg['names']) + list(cfg.get('extra') or []), 'exact', record=False)
         self.loss = ExactLoss(cfg['loss'])
         self.offset = Q(1) if cfg.get('lbib') else Q(0)
         self.model_loss = ref.FastStat(dyn, alpha)
@@ -169,7 +169,7 @@ class PfiRef:
         self.names = list(cfg['names'])
         self.d = len(self.names)
         dyn, alpha = cfg['dynamic'], Q(cfg['alpha'])
-        self.model = Model(cfg['model'], self.names, 'exact', record=False)
+        self.model = Model(cfg['model'], list(cfg['names']) + list(cfg.get('extra') or []), 'exact', record=False)
         self.loss = ExactLoss(cfg['loss'])
         self.imp = ref.MultiStat(dyn, alpha)
         self.var = ref.MultiStat(dyn, alpha)
